@@ -283,7 +283,15 @@ class Report(PropertyTreeNode, MessageHandler):
         """
         output_dir = self.project.outputDir or "./"
         base_name = self.name or self.id
-        return Path(output_dir) / f"{base_name}.{extension}"
+        path = Path(output_dir) / f"{base_name}.{extension}"
+        if getattr(self.project, "confineOutput", False):
+            # An explicitly requested output directory is where ALL reports go: a
+            # name like "../x" or "/abs/x" must not write anywhere else.
+            root = Path(output_dir).resolve()
+            target = path.resolve()
+            if root != target and root not in target.parents:
+                self.error("invalid_filename", f"Report filename '{base_name}' leaves the output directory")
+        return path
 
     def _generate_json(self) -> None:
         """Generate JSON output."""
